@@ -1,0 +1,12 @@
+//go:build verif
+
+package prompting
+
+// This file is only compiled with the "verif" build tag. It exports an
+// unexported function to the external verification harness without changing
+// any call site.
+
+// VerifDetermineResponseMode exposes determineResponseMode.
+func VerifDetermineResponseMode(prompt string) ResponseMode {
+	return determineResponseMode(prompt)
+}
